@@ -14,6 +14,11 @@ R2  spec->code: TLC enumerates the property's argument grid (dims {-1,0,1,2,3,5}
     the slices with cap == len inside a canary arena, calls blas/gonum.Implementation in all four
     precisions (and the LAPACK routines) under recover and compares outcome class
     (returned / package panic / runtime.Error / foreign panic), operand bytes and canaries.
+    LAPACK (53 prologues incl. the drivers whose minimum lengths depend on job flags and on
+    min/max of the dimensions, nine also through lapack64) additionally gets a deterministic
+    boundary grid: every legal flag combination x shapes with dimensions 0..3 x lwork minimal and
+    queried, every slice exactly minimal (accepted) and each slice in turn one element short
+    (rejected, operands unchanged).
 """
 import json
 import os
